@@ -70,6 +70,32 @@ def grid():
                     out.append(t % (a + ws, ws + b))
     return out
 
+def inject_ws(rng, src):
+    """whitespace (blank, tab, line break) inserted between the lexical pieces INSIDE tags: pest's implicit
+    whitespace makes many of these spellings valid, and the compile loop must cope with each"""
+    ts = tokens_of(src)
+    out, inside = [], 0
+    for i, t in enumerate(ts):
+        if t in ('{{', '{{{', '{{{{'):
+            inside += 1
+            out.append(t)
+            if rng.random() < 0.35:
+                out.append(rng.choice([' ', '\t', '\n', '  ']))
+            continue
+        if t in ('}}', '}}}', '}}}}'):
+            if inside and rng.random() < 0.25:
+                out.append(rng.choice([' ', '\n']))
+            inside = max(0, inside - 1)
+            out.append(t)
+            continue
+        out.append(t)
+        if inside and t in ('#', '/', '>', '*', '!', '&', '^', '~', '--', '=', '|', '(', ')') and rng.random() < 0.4:
+            out.append(rng.choice([' ', '\t', '\n']))
+    return ''.join(out)
+
+COMMENTS = ['{{! -- note --}}', '{{!\n-- x --}}', '{{!\t--x--}}', '{{!--x-- }}', '{{! -- x -- }}', '{{!-- a --}} --}}', '{{!--}}', '{{!----}}', '{{!}}', '{{! }}',
+            '{{!-- {{x}} --}}', '{{!-- }} --}}', '{{~!-- x --~}}', '{{!--x}}', '{{!-x-}}', '{{! --}}', '{{!-- --}}--}}']
+
 def probe_line(cid, src):
     X = x(src)
     return (f'{cid} cmp {X} ; regs {x("keep")} {x("K")} ; keys ; regs {x("n")} {X} ; keys ; regp {x("pp")} {X} ; '
@@ -89,6 +115,12 @@ def gen_cases(rng, tier, scale):
         srcs.append((mutate(rng, t), 'mutation'))
         if rng.random() < 0.3:
             srcs.append((mutate(rng, mutate(rng, t)), 'mutation2'))
+    for c in COMMENTS:
+        for ctx in ('%s', 'a %s b', '{{#if a}}\n  %s\n{{/if}}', '{{x~}} %s {{~y}}'):
+            srcs.append((ctx % c, 'comment'))
+    for g in grid():
+        for _ in range(1 if tier == 'quick' else 6):
+            srcs.append((inject_ws(rng, g), 'ws-injected'))
     for depth in (8, 32, 64):
         t = ''.join('{{#if a}}x' for _ in range(depth)) + 'y' + ''.join('{{/if}}' for _ in range(depth))
         srcs.append((t, 'deep'))
@@ -103,6 +135,12 @@ def oracle(c, io, mo):
     if io is None:
         return 'no output'
     if io in ('ABORT', 'TIMEOUT'):
+        # the case also renders the compiled template once; a source whose inline partial includes itself
+        # recurses without bound when RENDERED (the model reports FUEL at the render op and a value at every
+        # compile op): that is outside this property (and excluded by C09's acyclicity), not a compile abort
+        mt = (mo or '').split(' ')
+        if len(mt) == 9 and mt[6] == 'FUEL' and all('FUEL' not in t and 'PANIC' not in t for t in mt[:6]):
+            return None
         return f'compiling this source makes the process {io}'
     toks = io.split(' ')
     src = c['src']
@@ -144,5 +182,3 @@ def nontrivial(c, mo, io):
 def relevant_difference(c, mo, io):
     return True
 
-def known_F1_tilde_else_chain(c, mo, io):
-    return bool(re.search(r'\{\{~\s*(else|\^)\s*[^}\s~]', c['src'])) and io is not None and 'PANIC' in io
